@@ -23,7 +23,16 @@ def run_seed(seed, checks):
     os.rmdir(wt)
     res = {}
     try:
-        subprocess.run(['git', '-C', '/repo', 'worktree', 'add', '--detach', wt, 'HEAD'], check=True, capture_output=True)
+        for attempt in range(6):
+            # concurrent `git worktree add` calls can collide on the repository lock: retried
+            r0 = subprocess.run(['git', '-C', '/repo', 'worktree', 'add', '--detach', wt, 'HEAD'], capture_output=True, text=True)
+            if r0.returncode == 0:
+                break
+            import time
+            time.sleep(1 + attempt)
+            shutil.rmtree(wt, ignore_errors=True)
+        else:
+            return seed, {'error': 'git worktree add failed: ' + r0.stderr[:200]}
         r = subprocess.run(['git', '-C', wt, 'apply', os.path.join(sd, 'patch.diff')], capture_output=True, text=True)
         if r.returncode:
             return seed, {'error': 'patch does not apply: ' + r.stderr[:200]}
